@@ -85,29 +85,29 @@ type BaseRec struct {
 // s1 s2 mul alt lig c1 c2 c3 k1 k2 k3 p1 p2 pp1 pp2 mb unsup.
 type Sub struct {
 	Kind     string
-	Cov      []int      // s1 c2 k2 p1 pp2
-	Delta    int        // s1
-	Map      [][2]int   // s2
-	KVs      []KV       // mul alt
-	LigSets  []LigSet   // lig
-	CSets    []CSet     // c1
-	CD       [][2]int   // c2: input; k2: backtrack; pp2: class1
-	CD2      [][2]int   // k2: input; pp2: class2
-	CD3      [][2]int   // k2: lookahead
-	CRules   [][]CRule  // c2
-	Covs     [][]int    // c3: input; k3: backtrack
-	Covs2    [][]int    // k3: input
-	Covs3    [][]int    // k3: lookahead
-	Acts     []Action   // c3 k3
-	KSets    []KSet     // k1
-	KRules   [][]KRule  // k2
-	V        VRec       // p1
-	GVs      []GV       // p2
-	PairRows []PairRow  // pp1
+	Cov      []int        // s1 c2 k2 p1 pp2
+	Delta    int          // s1
+	Map      [][2]int     // s2
+	KVs      []KV         // mul alt
+	LigSets  []LigSet     // lig
+	CSets    []CSet       // c1
+	CD       [][2]int     // c2: input; k2: backtrack; pp2: class1
+	CD2      [][2]int     // k2: input; pp2: class2
+	CD3      [][2]int     // k2: lookahead
+	CRules   [][]CRule    // c2
+	Covs     [][]int      // c3: input; k3: backtrack
+	Covs2    [][]int      // k3: input
+	Covs3    [][]int      // k3: lookahead
+	Acts     []Action     // c3 k3
+	KSets    []KSet       // k1
+	KRules   [][]KRule    // k2
+	V        VRec         // p1
+	GVs      []GV         // p2
+	PairRows []PairRow    // pp1
 	PairMat  [][]PairCell // pp2
-	Marks    []MarkRec  // mb
-	Bases    []BaseRec  // mb
-	Note     string     // unsup: what it was
+	Marks    []MarkRec    // mb
+	Bases    []BaseRec    // mb
+	Note     string       // unsup: what it was
 }
 
 type Lookup struct {
